@@ -1,0 +1,43 @@
+//go:build verif
+
+package vgirpc
+
+// Thin exported wrappers over unexported shm allocator internals for the
+// /verif conformance harness. Each wrapper calls the real function and
+// nothing else.
+
+// VerifAllocate runs allocateLocked under the segment mutex.
+func (s *ShmSegment) VerifAllocate(size int) (uint64, bool) {
+	s.mu.Lock()
+	defer s.mu.Unlock()
+	return s.allocateLocked(size)
+}
+
+// VerifReadAllocs returns the allocation table as decoded by readAllocs.
+func (s *ShmSegment) VerifReadAllocs() [][2]uint64 {
+	s.mu.Lock()
+	defer s.mu.Unlock()
+	return s.readAllocs()
+}
+
+// VerifHeaderBytes returns a copy of the first n bytes of the mapping.
+func (s *ShmSegment) VerifHeaderBytes(n int) []byte {
+	s.mu.Lock()
+	defer s.mu.Unlock()
+	if n > len(s.data) {
+		n = len(s.data)
+	}
+	out := make([]byte, n)
+	copy(out, s.data[:n])
+	return out
+}
+
+// VerifValidateHeader runs validateHeader.
+func (s *ShmSegment) VerifValidateHeader() error { return s.validateHeader() }
+
+// VerifWriteAllocs runs writeAllocs (used to pre-populate a table).
+func (s *ShmSegment) VerifWriteAllocs(allocs [][2]uint64) {
+	s.mu.Lock()
+	defer s.mu.Unlock()
+	s.writeAllocs(allocs)
+}
